@@ -98,3 +98,11 @@ for _fs, _fe, _fx in (("latex", "FORMAT_LATEX", ".tex"), ("beamer", "FORMAT_BEAM
       bounds={"mode": "-b -t %s with two files 'a/x.md' 'bb/y.t'" % _fs, "flag options": "every combination (symbolic counts)", "unwind": 22},
       functions=["main", "filename_with_extension"], callees={"as c06_cli_main_batch": "argtable3, streams, dirname, library entry points by contract"},
       min_obligations=20, timeout=600, cost=10, assumptions=[NOFAIL, "argument parsing itself (argtable3) is trusted"])
+
+U("c06_cli_main_onefile_to_o", ["C06"], "h_cli_onefile", ["C06/cli.c"], ["main.c"], plain=True, lib=("lib/ds_sink.c",), kind="bounded",
+  defines=["-DSINK_CAP=16"],
+  pre_instrument=["--generate-function-body", "^(?!__CPROVER_|malloc$|free$|calloc$|strcmp$|strlen$|strcpy$|strrchr$|memcpy$|verif_).*$", "--generate-function-body-options", "nondet-return"],
+  cbmc_flags=["--unwind", "22", "--unwinding-assertions", "--object-bits", "10"],
+  bounds={"mode": "one file 'a/x.md', -o o.x", "flag options": "every combination (symbolic counts)", "unwind": 22},
+  functions=["main"], callees={"as c06_cli_main_batch": "argtable3, streams, dirname, realpath, library entry points by contract"},
+  min_obligations=20, timeout=600, cost=10, assumptions=[NOFAIL, "argument parsing itself (argtable3) is trusted"])
